@@ -25,7 +25,7 @@ def gen(rng, tier):
             pre = [x for x in pre if x > 0]
             for n in nexts:
                 cases.append({'kind': 'reads', 'n': 3 * B + rng.choice([0, 1, 500]), 'cut': None, 'ns': pre + [n, rng.choice([0, 1, 7, 1012])]})
-    for _ in range(150 if tier == 'quick' else 3000):
+    for _ in range(400 if tier == 'quick' else 5000):
         n = rng.choice([0, 1, 5, 1011, 1012, 1013, 2024, 3000, 4048])
         k = rng.choice([1, 2, 5, 12, 40])
         ns = [rng.choice([0, 1, 2, 3, 4, 100, 1011, 1012, 1013, 1014, 2024, rng.randrange(1, 1500)]) for _ in range(k)]
@@ -43,7 +43,7 @@ def gen(rng, tier):
             for v in (0x00, 0x41, 0x20):
                 cases.append({'kind': 'corrupt', 'n': 3 * B - 5, 'pos': blk * BLK + off, 'val': v})
     # record reading from a blocked file == from the equivalent unblocked stream
-    for _ in range(60 if tier == 'quick' else 1200):
+    for _ in range(150 if tier == 'quick' else 2000):
         k = rng.choice([1, 2, 3, 6])
         rs = [record_content(rng, rng.choice([1, 2, 4, 300, 1004, 1008, 1012, 2020, rng.randrange(1, 2500)])) for _ in range(k)]
         f = block_ref(vbs_ref(rs))
